@@ -39,6 +39,7 @@ type kase struct {
 	Cc    string `json:"cc"`
 	Ver   int    `json:"ver"`
 	St    string `json:"st"`
+	Fu    string `json:"fu"`
 	Exp   string `json:"exp"`
 	Today string `json:"today"`
 }
@@ -192,7 +193,11 @@ func payloadFor(rng *rand.Rand, c *kase) []byte {
 }
 
 func pingBody(rng *rand.Rand, c *kase) []byte {
-	b := cat(u64le(uint64(rng.Intn(5))), u16le(c.Sv), u32le(14), payloadFor(rng, c))
+	seq := uint64(rng.Intn(5))
+	if c.St == "seqhigh" { // above the sequence number of the sender's record in the routing table: the node asks for the record
+		seq = []uint64{1 << 20, 1<<63 + 5, ^uint64(0)}[rng.Intn(3)]
+	}
+	b := cat(u64le(seq), u16le(c.Sv), u32le(14), payloadFor(rng, c))
 	offClass(b, 10, c.Off, -1)
 	return resize(rng, b, c.N)
 }
